@@ -1,6 +1,7 @@
 # C02 - acknowledged writes survive the loss of up to ReplicaCount-1 members (DESIGN.md section 9).
 import json
 
+import balancelib
 import dmaplib
 import memberlib
 import vlib
@@ -54,7 +55,59 @@ def gen(rng, sid, N, R, rr):
         ops.append({"op": "get", "c": "emb%d" % rng.choice(live), "d": d, "k": k})
     cluster = {"members": N, "replicas": R, "wq": 1, "rq": 1, "partitions": rng.choice([7, 13]), "table": rng.choice([512, 4096]),
                "readrepair": rr, "evict_workers": 1}
-    return {"id": sid, "cluster": cluster, "ops": ops, "_failed": failed}
+    model = sid % 2 == 0
+    if model:
+        ops = with_dumps(ops, d)
+    return {"id": sid, "cluster": cluster, "ops": ops, "_failed": failed, "_model": model}
+
+
+def with_dumps(ops, d):
+    """a white-box dump (harness op hstate) after every operation that can change the state, for the model comparison"""
+    out = [{"op": "hstate", "d": d}]
+    for o in ops:
+        out.append(o)
+        if o["op"] not in ("get", "arm", "fired"):
+            out.append({"op": "hstate", "d": d})
+    return out
+
+
+PUT_POINTS = ["put.local", "put.backup", "delete.others"]
+
+
+def gen_opcrash(rng, sid, point):
+    """the partition owner stops abruptly in the middle of a Put (after its own write / after a backup write) or of a
+    Delete (after the remote copies were removed, before its own): the interrupted operation is not acknowledged, every
+    acknowledged one must survive"""
+    d = "c02x%d" % sid
+    R = rng.choice([2, 2, 3])
+    N = rng.choice([3, 4]) if R == 2 else 4
+    keys = [dmaplib.hx("%s-k%d" % (d, i)) for i in range(rng.randrange(12, 24))]
+    ver = {k: 0 for k in keys}
+
+    def phase(n, paths):
+        out = []
+        for _ in range(n):
+            k = rng.choice(keys)
+            if rng.random() < 0.3:
+                out.append({"op": "del", "c": rng.choice(paths), "d": d, "k": k})
+            else:
+                ver[k] += 1
+                out.append({"op": "put", "c": rng.choice(paths), "d": d, "k": k, "v": dmaplib.hx("%s#%d" % (k[-6:], ver[k]))})
+        return out
+
+    ops = phase(rng.randrange(25, 45), ["emb@owner", "emb@other", "emb@backup", "cc"])
+    ops.append({"op": "arm", "c": point, "tok": "self", "m": rng.randrange(1, 6)})
+    ops += phase(12, ["cc"])
+    ops.append({"op": "fired"})
+    ops.append({"op": "waitstable", "ms": 25000})
+    for k in keys:
+        for c in ("emb@owner", "emb@other", "cc"):
+            ops.append({"op": "get", "c": c, "d": d, "k": k})
+    ops += phase(rng.randrange(8, 16), ["emb@owner", "emb@other", "cc"])
+    for k in keys:
+        ops.append({"op": "get", "c": rng.choice(["emb@owner", "emb@other", "cc"]), "d": d, "k": k})
+    cluster = {"members": N, "replicas": R, "wq": 1, "rq": 1, "partitions": 7, "table": 4096, "readrepair": False, "evict_workers": 1}
+    return {"id": sid, "cluster": cluster, "ops": with_dumps(ops, d), "_failed": [(point, "fail-point")], "_model": True, "_point": point}
 
 
 def judge(sc, obs):
@@ -68,7 +121,7 @@ def judge(sc, obs):
     for i, (op, ob) in enumerate(zip(sc["ops"], obs)):
         o = op["op"]
         r = ob.get("r")
-        if o == "stop":
+        if o in ("stop", "arm"):
             stable = False
             continue
         if o == "waitstable":
@@ -119,6 +172,9 @@ def run(res):
         R = rng.choice([2, 2, 3])
         N = rng.choice([3, 4, 5]) if R == 2 else rng.choice([4, 5])
         scs.append(gen(rng, i, N, R, rng.random() < 0.5))
+    nop = 6 if res.tier == "quick" else 45
+    for j in range(nop):
+        scs.append(gen_opcrash(vlib.rng_for(res.seed, PID, "opcrash", j), 5000 + j, PUT_POINTS[j % len(PUT_POINTS)]))
     results = memberlib.run_membership(scs, jobs=7)
     failures, envfail = [], 0
     roles = {}
@@ -147,6 +203,38 @@ def run(res):
         res.violation({"kind": "impl-violates-property", "cluster": sc["cluster"], "scenario": {"ops": sc["ops"]}, "ops_on_failing_key": mini,
                        "failed_members": sc["_failed"], "failed_step": v[0], "predicate": {"name": "last acknowledged value from every survivor", "verdict": v[1]},
                        "seed": res.seed})
+    # model comparison (Model/Balance.v + BalanceCrash.v on the abstracted white-box dumps): transitions while the cluster is
+    # healthy, the invariant of the theorems in every healthy state, and the member-loss invariant in every state afterwards
+    tcases, scases, ccases, mstats, fired = [], [], [], {}, {}
+    for sc in scs:
+        r = results[sc["id"]]
+        if not sc.get("_model") or r.get("env", {}).get("error") or len(r["obs"]) < len(sc["ops"]):
+            continue
+        if sc.get("_point"):
+            f = [ob.get("fired") for op, ob in zip(sc["ops"], r["obs"]) if op["op"] == "fired"]
+            fired.setdefault(sc["_point"], [0, 0])
+            fired[sc["_point"]][0] += 1
+            fired[sc["_point"]][1] += 1 if (f and f[0]) else 0
+        t, s_, st = balancelib.build_cases(sc, r["obs"], with_backup=True, crash=True, arm_ops=("arm", "stop"), clear_on_stop=False)
+        tcases += t
+        scases += s_
+        ccases += st.pop("crash_states")
+        for k, v in st.items():
+            mstats[k] = mstats.get(k, 0) + v
+    badt = balancelib.coq_mismatches("c02t", "tcase", "t_mismatches", tcases)
+    bads = balancelib.coq_mismatches("c02s", "scase", "s_mismatches", scases)
+    badc = balancelib.coq_mismatches("c02c", "scase", "sc_mismatches", ccases)
+    byid = {sc["id"]: sc for sc in scs}
+    for kind, bad in (("transition", badt), ("state", bads), ("state-after-member-loss", badc)):
+        for (sid, step, part) in bad[:3]:
+            sc = byid[sid]
+            res.violation({"kind": "model-vs-impl", "what": kind, "cluster": sc["cluster"], "scenario": {"ops": sc["ops"]}, "failed_step": step,
+                           "partition": part, "op": sc["ops"][step], "failed_members": sc["_failed"],
+                           "theorem_or_correspondence": "Model/BalanceRun.v %s on the abstracted white-box dump" % {
+                               "transition": "explains", "state": "state_ok"}.get(kind, "state_ok_crash"), "seed": res.seed}, no_input=True)
+    res.coverage["model"] = dict(mstats, transition_cases=len(tcases), state_cases=len(scases), crash_state_cases=len(ccases),
+                                 transition_mismatches=len(badt), state_mismatches=len(bads), crash_state_mismatches=len(badc))
+    res.coverage["fail_points"] = {k: {"scenarios": v[0], "fired": v[1]} for k, v in fired.items()}
     if not proofs_ok and not res.violations:
         broken = [o for o in res.obligations if not o["ok"]]
         res.violation({"kind": "obligation-broken", "failed": [o["theorem"] for o in broken],
@@ -157,7 +245,10 @@ def run(res):
                 "through every member and a cluster client; then 1..R-1 members stop (the coordinator or a random member; graceful Shutdown or abrupt = memberlist stopped "
                 "without leave + listener closed), optionally with operations issued during detection (unacknowledged ones leave their key uncertain); after "
                 "re-stabilisation every key is read from EVERY survivor and from a fresh cluster client and must be the last acknowledged value (deleted keys not-found); "
-                "then a post-failure workload and reads; non-trivial = scenarios that started and re-stabilised",
+                "then a post-failure workload and reads; plus scenarios in which the partition owner stops abruptly at a fail point inside a Put (after "
+                "its own write, after a backup write) or a Delete (after the remote copies were removed); half of the scenarios dump every copy after every "
+                "operation and are compared with Model/Balance.v + BalanceCrash.v inside Coq (transitions, invariant, member-loss invariant); "
+                "non-trivial = scenarios that started and re-stabilised",
         "environment_failures": envfail, "predicate_failures": len(failures), "failure_modes": roles,
         "traces_validated_against_impl": len(scs) - envfail,
         "samples": [{"cluster": scs[0]["cluster"], "failed": scs[0]["_failed"], "ops": scs[0]["ops"][:6]}],
